@@ -184,3 +184,27 @@ type ABCDef struct{ nameBase }
 type SHA256 struct{ nameBase }
 type A1b2C3 struct{ nameBase }
 type IOReader9 struct{ nameBase }
+
+// RawBytes turns the marker runes U+E080..U+E0FF of a harness string into the raw
+// bytes 0x80..0xFF: histories are carried as JSON, which cannot hold strings that
+// are not valid UTF-8, the objects handed to the database can.
+func RawBytes(s string) string {
+	marked := false
+	for _, r := range s {
+		if r >= 0xE080 && r <= 0xE0FF {
+			marked = true
+		}
+	}
+	if !marked {
+		return s
+	}
+	b := make([]byte, 0, len(s))
+	for _, r := range s {
+		if r >= 0xE080 && r <= 0xE0FF {
+			b = append(b, byte(r-0xE000))
+		} else {
+			b = append(b, string(r)...)
+		}
+	}
+	return string(b)
+}
